@@ -31,20 +31,21 @@ public:
   static constexpr uint32_t NSLOTS = 4;
   static constexpr uint32_t CB_REP_BASE = 0x1000;     // guest handle of callback slot i = CB_REP_BASE + 16*i
   static constexpr uint64_t FN_TAG = 0x7F0000000000ull; // application-side tag of guest function addresses
+  static constexpr uint32_t FN_XOR = 0xA5000000u;        // function pointers and data pointers are represented differently
   using Finder = rlbox_bm* (*)(const void*);
 
   uintptr_t base = 0;
   uint32_t id = 0;
   // symbol tables (by-name mode): name -> guest function (lookup) / guest handle (internal lookup)
   struct Sym { const char* name; void* fn; uint32_t handle; };
-  Sym syms[4] = {};
+  Sym syms[16] = {};
   uint32_t nsyms = 0;
   void* cb_keys[NSLOTS] = {};
   void* cb_interceptors[NSLOTS] = {};
   static inline rlbox_bm* cur_sandbox = nullptr;
   static inline uint32_t cur_slot = 0;
 
-  void add_symbol(const char* name, void* fn, uint32_t handle) { syms[nsyms++] = Sym{ name, fn, handle }; }
+  void add_symbol(const char* name, void* fn, uint32_t handle) { if (nsyms >= 16) verif_abort("BM: symbol table full"); syms[nsyms++] = Sym{ name, fn, handle }; }
 
   static bool streq(const char* a, const char* b)
   {
@@ -88,7 +89,7 @@ protected:
   inline void* impl_get_unsandboxed_pointer(T_PointerType p) const
   {
     if constexpr (std::is_function_v<std::remove_pointer_t<T>>)
-      return reinterpret_cast<void*>(FN_TAG | static_cast<uintptr_t>(p));
+      return reinterpret_cast<void*>(FN_TAG | static_cast<uintptr_t>(p ^ FN_XOR));   // table handle -> application-side function address
     else
       return reinterpret_cast<void*>(base + static_cast<uintptr_t>(p));
   }
@@ -96,7 +97,7 @@ protected:
   inline T_PointerType impl_get_sandboxed_pointer(const void* p) const
   {
     if constexpr (std::is_function_v<std::remove_pointer_t<T>>)
-      return static_cast<T_PointerType>(reinterpret_cast<uintptr_t>(p));
+      return static_cast<T_PointerType>(reinterpret_cast<uintptr_t>(p)) ^ FN_XOR;   // differs from the data-pointer translation of the same bits
     else
       return static_cast<T_PointerType>(reinterpret_cast<uintptr_t>(p) - base);
   }
@@ -140,7 +141,7 @@ protected:
   void* impl_internal_lookup_symbol(const char* name)
   {
     for (uint32_t i = 0; i < nsyms; i++)
-      if (streq(syms[i].name, name)) { env_log(BM_TAG_LOOKUP, id, 1, i); return reinterpret_cast<void*>(FN_TAG | syms[i].handle); }
+      if (streq(syms[i].name, name)) { env_log(BM_TAG_LOOKUP, id, 1, i); return reinterpret_cast<void*>(FN_TAG | (syms[i].handle ^ FN_XOR)); }
     verif_abort("BM: unknown symbol");
   }
 
